@@ -87,7 +87,11 @@ func (n *node[T]) buildMethods() {
 func (n *node[T]) AllowHeader() string { return getMethodIndexEntity(n.getMethodIndex()).options }
 
 // Methods 当前节点支持的请求方法
-func (n *node[T]) Methods() []string { return getMethodIndexEntity(n.getMethodIndex()).methods }
+//
+// 返回的是副本，调用方可以随意修改。
+func (n *node[T]) Methods() []string {
+	return slices.Clone(getMethodIndexEntity(n.getMethodIndex()).methods)
+}
 
 // 在锁的范围内读取 methodIndex，Methods 和 AllowHeader 会在锁之外被用户调用。
 func (n *node[T]) getMethodIndex() int {
